@@ -117,10 +117,17 @@ pub mod pipeline {
 
         fn implicit_sort(multi_agg: &MultiAggregateOperator) -> SortOperator {
             let timeslice_col = Expr::column("_timeslice");
-            let (opt_timeslice, direction) = if multi_agg.key_cols.contains(&timeslice_col) {
-                (Some(timeslice_col), SortMode::Ascending)
-            } else {
-                (None, SortMode::Descending)
+            // the key column is named after the text it was written with: `_timeslice`, `(_timeslice)`, ...
+            let (opt_timeslice, direction) = match multi_agg
+                .key_cols
+                .iter()
+                .position(|key| *key == timeslice_col)
+            {
+                Some(at) => (
+                    Some(Expr::column(&multi_agg.key_col_headers[at])),
+                    SortMode::Ascending,
+                ),
+                None => (None, SortMode::Descending),
             };
 
             let sort_cols: Vec<Expr> = opt_timeslice
